@@ -39,6 +39,8 @@ def obligations(tier):
     for n in range(0, (4 if q else 5) + 1):
         add("nibbles_to_bytes(bytes_to_nibbles(b)) == b, nibble values", "h_bytes_nibbles", "b_bytes_nibbles", n=n)
         add("bytes_to_nibbles(nibbles_to_bytes(x)) == x", "h_nibbles_bytes", "b_nibbles_bytes", n=2 * n)
+        if n <= 2:
+            add("nibbles_to_bytes refuses odd-length sequences (it is injective on what it accepts)", "h_nibbles_bytes", "b_nibbles_bytes", n=2 * n + 1)
     add("nibble tables equal their closed forms", "h_tables", "b_tables")
     for n in range(0, (3 if q else 5) + 1):
         add("decode_from_bin(encode_to_bin(b)) == b", "h_bin", "b_bin", n=n)
